@@ -36,6 +36,14 @@ extern "C" gcry_error_t gcry_cipher_setiv(gcry_cipher_hd_t hd, const void *iv, s
 	if (g_capiv) g_ivs.push_back(std::string((const char*)iv, ivlen));
 	return real(hd, iv, ivlen);
 }
+// observe the associated data given to the AEAD cipher
+static bool g_capad = false; static std::vector<std::string> g_ads;
+extern "C" gcry_error_t gcry_cipher_authenticate(gcry_cipher_hd_t hd, const void *abuf, size_t abuflen) {
+	typedef gcry_error_t (*fn_t)(gcry_cipher_hd_t, const void*, size_t);
+	static fn_t real = (fn_t)dlsym(RTLD_NEXT, "gcry_cipher_authenticate");
+	if (g_capad) g_ads.push_back(std::string((const char*)abuf, abuflen));
+	return real(hd, abuf, abuflen);
+}
 static std::string S(const oct &o) { return std::string(o.begin(), o.end()); }
 static oct rnd_oct(size_t n) { oct r(n); for (size_t i = 0; i < n; i++) r[i] = (unsigned char)gen().next(); return r; }
 static uint64_t g_cases = 0, g_benign = 0;
@@ -615,6 +623,51 @@ static void enc_aead_suite() {
 		}
 	}
 }
+// every pair of chunks swapped / duplicated, every single chunk dropped, final tag moved (messages of 5..9 chunks)
+static void aead_chunk_tamper_suite() {
+	static const int AE[] = { TMCG_OPENPGP_AEADALGO_OCB, TMCG_OPENPGP_AEADALGO_EAX };
+	for (int ai = 0; ai < 2; ai++) for (size_t chunks = 5; chunks <= 9; chunks++) for (int partial = 0; partial < 2; partial++) {
+		int ae = AE[ai], sk = (chunks % 2) ? TMCG_OPENPGP_SKALGO_AES128 : TMCG_OPENPGP_SKALGO_AES256; unsigned cs = 0; const size_t dim = 64, unit = dim + 16;
+		size_t n = chunks * dim - (partial ? 1 + gen().below(dim - 1) : 0);
+		std::string ctx = "aead" + std::to_string(ae) + "/cipher" + std::to_string(sk) + "/chunks" + std::to_string(chunks) + "/len" + std::to_string(n);
+		oct plain = rnd_oct(n), ad, iv, enc; tmcg_openpgp_secure_octets_t key;
+		ad.push_back(0xD4); ad.push_back(1); ad.push_back(sk); ad.push_back(ae); ad.push_back(cs); for (int i = 0; i < 8; i++) ad.push_back(0);
+		if (PGP::SymmetricEncryptAEAD(plain, key, (tmcg_openpgp_skalgo_t)sk, (tmcg_openpgp_aeadalgo_t)ae, cs, ad, 0, iv, enc)) { propfail("enc-aead-fails", "SymmetricEncryptAEAD fails for " + ctx); continue; }
+		auto dec_ok = [&](const oct &c) { oct o2; return !PGP::SymmetricDecryptAEAD(c, key, (tmcg_openpgp_skalgo_t)sk, (tmcg_openpgp_aeadalgo_t)ae, cs, iv, ad, 0, o2); };
+		if (!dec_ok(enc)) { propfail("enc-aead-roundtrip", "honest AEAD message does not decrypt for " + ctx); continue; }
+		size_t sw = partial ? chunks - 1 : chunks;   // chunks of full size (same length: can be exchanged octet for octet)
+		size_t lastlen = enc.size() - 16 - (chunks - 1) * unit;   // last chunk incl. its tag
+		auto chunk = [&](size_t i) { size_t b = i * unit, e2 = (i + 1 == chunks) ? b + lastlen : b + unit; return oct(enc.begin() + b, enc.begin() + e2); };
+		oct fin(enc.end() - 16, enc.end());
+		auto join = [&](const std::vector<oct> &v, const oct &f) { oct r; for (auto &c : v) r.insert(r.end(), c.begin(), c.end()); r.insert(r.end(), f.begin(), f.end()); return r; };
+		std::vector<oct> ch; for (size_t i = 0; i < chunks; i++) ch.push_back(chunk(i));
+		if (join(ch, fin) != enc) { propfail("harness-aead-layout", "chunk decomposition wrong for " + ctx); continue; }
+		for (size_t i = 0; i < sw; i++) for (size_t j = i + 1; j < sw; j++) {
+			std::vector<oct> v = ch; std::swap(v[i], v[j]);
+			if (dec_ok(join(v, fin))) propfail("enc-aead-reorder-accepted", "AEAD chunks " + std::to_string(i) + " and " + std::to_string(j) + " swapped, still decrypts for " + ctx);
+			g_cases++;
+		}
+		for (size_t i = 0; i < sw; i++) for (size_t j = 0; j < sw; j++) if (i != j) {
+			std::vector<oct> v = ch; v[j] = ch[i];
+			if (dec_ok(join(v, fin))) propfail("enc-aead-duplicate-accepted", "AEAD chunk " + std::to_string(j) + " replaced by a copy of chunk " + std::to_string(i) + ", still decrypts for " + ctx);
+			std::vector<oct> v2 = ch; v2.insert(v2.begin() + j, ch[i]);
+			if (dec_ok(join(v2, fin))) propfail("enc-aead-duplicate-accepted", "copy of AEAD chunk " + std::to_string(i) + " inserted before chunk " + std::to_string(j) + ", still decrypts for " + ctx);
+			g_cases += 2;
+		}
+		for (size_t i = 0; i < chunks; i++) {
+			std::vector<oct> v = ch; v.erase(v.begin() + i);
+			if (dec_ok(join(v, fin))) propfail("enc-aead-drop-accepted", "AEAD chunk " + std::to_string(i) + " dropped, still decrypts for " + ctx);
+			g_cases++;
+		}
+		for (size_t i = 0; i < chunks; i++) {   // final tag moved in front of chunk i; final tag exchanged with the tag of chunk i
+			std::vector<oct> v = ch; v.insert(v.begin() + i, fin);
+			if (dec_ok(join(v, oct()))) propfail("enc-aead-final-tag-moved-accepted", "final AEAD tag moved before chunk " + std::to_string(i) + ", still decrypts for " + ctx);
+			std::vector<oct> v2 = ch; oct f2(v2[i].end() - 16, v2[i].end()); std::copy(fin.begin(), fin.end(), v2[i].end() - 16);
+			if (dec_ok(join(v2, f2))) propfail("enc-aead-final-tag-moved-accepted", "final AEAD tag exchanged with the tag of chunk " + std::to_string(i) + ", still decrypts for " + ctx);
+			g_cases += 2;
+		}
+	}
+}
 // nonce schedule of the chunked AEAD encryption: records for the model, and the requirement that no nonce repeats
 static void aead_nonce_suite() {
 	static const int AE[] = { TMCG_OPENPGP_AEADALGO_OCB, TMCG_OPENPGP_AEADALGO_EAX };
@@ -622,10 +675,22 @@ static void aead_nonce_suite() {
 		int ae = AE[ai]; unsigned cs = 0; size_t n = chunks * 64 - gen().below(64);
 		oct plain = rnd_oct(n), ad, iv, enc; tmcg_openpgp_secure_octets_t key;
 		ad.push_back(0xD4); ad.push_back(1); ad.push_back(TMCG_OPENPGP_SKALGO_AES128); ad.push_back(ae); ad.push_back(cs); for (int i = 0; i < 8; i++) ad.push_back(0);
-		g_ivs.clear(); g_capiv = true;
+		g_ivs.clear(); g_capiv = true; g_ads.clear(); g_capad = true;
 		gcry_error_t e = PGP::SymmetricEncryptAEAD(plain, key, TMCG_OPENPGP_SKALGO_AES128, (tmcg_openpgp_aeadalgo_t)ae, cs, ad, 0, iv, enc);
-		g_capiv = false;
+		g_capiv = false; g_capad = false;
 		if (e) continue;
+		// associated data of every chunk and of the final tag, encoder and decoder: call k carries chunk index k, the last call also the total length
+		std::vector<std::string> ads_enc = g_ads; oct dec_out;
+		g_ads.clear(); g_capad = true;
+		e = PGP::SymmetricDecryptAEAD(enc, key, TMCG_OPENPGP_SKALGO_AES128, (tmcg_openpgp_aeadalgo_t)ae, cs, iv, ad, 0, dec_out);
+		g_capad = false;
+		if (e || dec_out != plain) propfail("enc-aead-roundtrip", "AEAD decryption does not return the plaintext (" + std::to_string(n) + " octets, mode " + std::to_string(ae) + ")");
+		for (int dir = 0; dir < 2; dir++) {
+			const std::vector<std::string> &v = dir ? g_ads : ads_enc;
+			if (v.size() != (n - 1) / 64 + 2) propfail("aead-ad-calls", std::string(dir ? "decoder" : "encoder") + " authenticates " + std::to_string(v.size()) + " buffers for " + std::to_string((n - 1) / 64 + 1) + " chunks");
+			for (size_t k = 0; k < v.size(); k++)
+				Rec("aead_ad").b(S(ad).substr(0, 5)).t(k + 1 == v.size() ? "f" : "c").u(k).u(n).t(dir ? "dec" : "enc").b(v[k]);
+		}
 		for (size_t c = 0; c < g_ivs.size(); c++) Rec("aead_nonce").b(S(iv)).d(c).b(g_ivs[c]);
 		for (size_t a = 0; a < g_ivs.size(); a++) for (size_t b = a + 1; b < g_ivs.size(); b++) if (g_ivs[a] == g_ivs[b]) {
 			propfail("aead-nonce-reuse", "SymmetricEncryptAEAD uses the same nonce for chunk " + std::to_string(a) + " and chunk " + std::to_string(b) + " of one message (" + std::to_string(n) + " octets, chunk size 64, mode " + std::to_string(ae) + ")");
@@ -696,7 +761,7 @@ int main(int argc, char **argv) {
 	if (on("enc-mdc")) enc_mdc_suite();
 	if (on("enc-aead")) enc_aead_suite();
 	if (on("sigfields")) sigfields_suite();
-	if (on("aead-nonce")) aead_nonce_suite();
+	if (on("aead-nonce")) { aead_nonce_suite(); aead_chunk_tamper_suite(); }
 	if (on("pke")) { Key rsa, elg, ec; bool a = genkey(rsa, "(genkey (rsa (nbits 4:2048)(transient-key)))"), b = genkey(elg, "(genkey (elg (nbits 4:2048)(transient-key)))"), c = genkey(ec, "(genkey (ecc (curve secp256r1)))");
 		if (!a || !b) propfail("keygen", "cannot generate encryption keys"); else pke_suite(rsa, elg, c ? &ec : NULL); }
 	printf("CASES %llu BENIGN %llu\n", (unsigned long long)g_cases, (unsigned long long)g_benign);
